@@ -1,7 +1,8 @@
 (* Driver for the C06 model (Model/StreamRead.v).
    case:   <pipe> <ipc> ; ops ; beh0 | beh1 | ... ; allocs ; oracle   (pipe: uv_pipe_t, else tcp)
-   ops:    S<tok> (uv_read_start)  T (uv_read_stop)  C (uv_close)  R<raw> (one
-           uv_run(UV_RUN_NOWAIT) during which epoll reported <raw> for the descriptor)
+   ops:    S<tok> (uv_read_start)  T (uv_read_stop)  C (uv_close)  R<raw>,<wout> (one
+           uv_run(UV_RUN_NOWAIT) during which epoll reported <raw> for the descriptor while
+           POLLOUT was <wout> = 0/1 requested)  I<ev> (uv__stream_io entered with <ev>)
    beh:    what the k-th read callback does: S<tok> T C
    allocs: what the k-th alloc callback returns, cyclically: <len> | n<len> (base NULL)
    oracle: answers of read/recvmsg in order: d<n> a z e<errno> i
@@ -19,7 +20,11 @@ let parse_op (tok : string) : op =
   | 'S' -> OStart (nat_of_int (int_of_string arg))
   | 'T' -> OStop
   | 'C' -> OClose
-  | 'R' -> ORun (z_of_string arg)
+  | 'R' -> (match String.split_on_char ',' arg with
+            | [raw; w] -> ORun (z_of_string raw, w = "1")
+            | [raw] -> ORun (z_of_string raw, false)
+            | _ -> failwith ("bad op " ^ tok))
+  | 'I' -> OIo (z_of_string arg)
   | _ -> failwith ("bad op " ^ tok)
 
 let parse_ans (tok : string) : ans =
@@ -79,14 +84,14 @@ let case (line : string) : string =
   | _ -> failwith "bad case"
 
 (* mode "mon": a trace in the canonical format (the implementation's own, harness-only
-   upper-case tokens W G H Q U K M B skipped) is parsed back into events and judged by the
+   upper-case tokens W G H Q U K M B V Y O skipped) is parsed back into events and judged by the
    extracted checker Spec/StreamReadSpec.v [monitor]; prints four 0/1 digits:
    exact stream, alloc paired, silent until restart, no NULL call *)
 let parse_event (tok : string) : event option =
   let arg = String.sub tok 1 (String.length tok - 1) in
   let nat_ s = nat_of_int (int_of_string s) in
   match tok.[0] with
-  | 'W' | 'G' | 'H' | 'Q' | 'U' | 'K' | 'M' | 'B' -> None
+  | 'W' | 'G' | 'H' | 'Q' | 'U' | 'K' | 'M' | 'B' | 'V' | 'Y' | 'O' -> None
   | 'P' -> Some (EPoll (z_of_string arg))
   | 'A' ->
       let arg = if String.length arg > 0 && arg.[0] = '!' then String.sub arg 2 (String.length arg - 2) else arg in
